@@ -363,8 +363,8 @@ func GenC10(seed uint64, idx int) *Scenario {
 				if len(raw) < 2 {
 					continue
 				}
-				cut := 1 + r.Intn(len(raw)-1)
-				op.Data = hex.EncodeToString(raw[:cut])
+				dmg, _ := DamageRecord(raw, r.Intn)
+				op.Data = hex.EncodeToString(dmg)
 				op.VSeed = 0 // the value behind the bytes is no longer known
 				if r.Intn(2) == 0 {
 					op.Target = 1 + slotFor(tn, mainType)
